@@ -227,6 +227,7 @@ pub fn int_into(ty: &str, neg: bool, mag: u64) -> Value {
 }
 
 /// Encoder float methods on a Vec sink: the bytes written.
+#[cfg(feature = "alloc")]
 pub fn encf(name: &str, bits: &[u8]) -> Value {
     let mut e = minicbor::Encoder::new(Vec::new());
     let r = match name {
@@ -305,6 +306,8 @@ pub fn run_op(fam: &str, name: &str, input: &Value) -> Value {
             "tok" => if name == "bytes" { crate::toks::op_bytes(&get_bytes(&input["buf"])) } else { crate::toks::op_toks(&input["toks"]) },
             #[cfg(all(feature = "alloc", feature = "half"))]
             "display" => crate::disp::fmt(&get_bytes(&input["buf"])),
+            #[cfg(feature = "std")]
+            "typed" => crate::types::decode_named(name, &get_bytes(&input["bytes"])).unwrap_or(json!({"p":"unsupported"})),
             #[cfg(feature = "std")]
             "sink" => crate::sinks::raw(name, input),
             #[cfg(feature = "io")]
